@@ -621,7 +621,7 @@ def fold_extreme(I, ctx, seq, key, want_max, node, what):
 def m_len(I, ctx, args, kwargs, node):
     v = args[0]
     if isinstance(v, Choice):
-        return I.lift1(v, lambda a: m_len(I, ctx, [a], {}, node) if a is not None else I.type_error(ctx, node, 'len-None'), ctx)
+        return I.lift1(v, lambda a, cx: m_len(I, cx, [a], {}, node) if a is not None else I.type_error(cx, node, 'len-None'), ctx)
     if isinstance(v, (Ref, Snapshot)):
         c, _ = content(I, ctx, v)
         if isinstance(c, BitSet):
@@ -669,6 +669,20 @@ def m_sum(I, ctx, args, kwargs, node):
     seq = to_seq(I, ctx, args[0])
     out = args[1] if len(args) > 1 else 0
     for g, e in items_of(seq):
+        if isinstance(e, Choice) and all(a is None or is_num(a) or is_boolish(a) for _, a in e.alts) \
+                and any(a is not None for _, a in e.alts):
+            # a number chosen by guards (e.g. an optional argument replaced by its default): nested if-then-else;
+            # a None alternative is a TypeError on its guard
+            alts = []
+            for g2, a in e.alts:
+                if a is None:
+                    I.raise_if(ctx, And_(g, g2), TypeErr, 'type:sum-of-None@' + I.where(node))
+                else:
+                    alts.append((g2, a))
+            acc = b2i(alts[-1][1])
+            for g2, a in reversed(alts[:-1]):
+                acc = If_(g2, b2i(a), acc)
+            e = acc
         if isinstance(e, Choice) or not (is_num(e) or is_boolish(e)):
             if isinstance(e, tuple) or isinstance(e, SymSeq):
                 raise PyvcUnsupported('sum of sequences')
